@@ -17,7 +17,8 @@ SKEL_EXCLUDE = {'converter-example.c'}
 
 FLAVOURS = {
     # name: (cflags, ldflags)
-    'asan': (['-O1', '-g', '-fsanitize=address,undefined', '-fno-sanitize-recover=undefined',
+    # nonnull-attribute is switched off: fwrite(NULL,1,0,f) / memcpy(p,NULL,0) are pedantic, not what C04 means
+    'asan': (['-O1', '-g', '-fsanitize=address,undefined', '-fno-sanitize=nonnull-attribute', '-fno-sanitize-recover=undefined',
               '-fno-omit-frame-pointer'], ['-fsanitize=address,undefined']),
     'plain': (['-O1', '-g'], []),
     'instr': (['-O1', '-g', '-finstrument-functions'], []),
